@@ -137,6 +137,15 @@ class ContinueParentStageHandler(StabilizeHandler[ContinueParentStage]):
             return
 
         if not all_complete:
+            # A sibling that is explicitly waiting (SUSPENDED for a signal, PAUSED for a
+            # resume) is not stuck: do not spend the wait budget on it. Its completion
+            # sends a fresh ContinueParentStage.
+            if (
+                any(s.status in (WorkflowStatus.SUSPENDED, WorkflowStatus.PAUSED) for s in before_stages)
+                and not stage.execution.is_canceled
+            ):
+                return
+
             # Not all before-stages complete yet - check retry count
             retry_count = message.retry_count or 0
             max_retries = self.handler_config.max_stage_wait_retries
@@ -304,6 +313,15 @@ class ContinueParentStageHandler(StabilizeHandler[ContinueParentStage]):
             return
 
         if not all_complete:
+            # A sibling that is explicitly waiting (SUSPENDED for a signal, PAUSED for a
+            # resume) is not stuck: do not spend the wait budget on it. Its completion
+            # sends a fresh ContinueParentStage.
+            if (
+                any(s.status in (WorkflowStatus.SUSPENDED, WorkflowStatus.PAUSED) for s in after_stages)
+                and not stage.execution.is_canceled
+            ):
+                return
+
             # Not all after-stages complete yet - check retry count
             retry_count = message.retry_count or 0
             max_retries = self.handler_config.max_stage_wait_retries
